@@ -625,8 +625,17 @@ ares_status_t ares_sysconfig_parse_resolv_line(const ares_channel_t *channel,
     /* Ignore all failures except ENOMEM.  If the sysadmin set a bad
      * sortlist, just ignore the sortlist, don't cause an inoperable
      * channel */
-    status =
-      ares_parse_sortlist(&sysconfig->sortlist, &sysconfig->nsortlist, value);
+    struct apattern *sortlist  = NULL;
+    size_t           nsortlist = 0;
+
+    status = ares_parse_sortlist(&sortlist, &nsortlist, value);
+    if (status == ARES_SUCCESS && nsortlist > 0) {
+      ares_free(sysconfig->sortlist);
+      sysconfig->sortlist  = sortlist;
+      sysconfig->nsortlist = nsortlist;
+    } else {
+      ares_free(sortlist);
+    }
     if (status != ARES_ENOMEM) {
       status = ARES_SUCCESS;
     }
